@@ -339,7 +339,7 @@ theorem c08_hdr_present (P : Nat) (d : Dec) (hi : Inv P d) (h2 : 2 ≤ d.fragSiz
   hi.hdr_some (by omega)
 
 /-- **C08 fragment count**: the fragment list never holds more entries than bytes plus one (every
-fragment after the first carries data — header-only packets are refused since cfdb263), so the list
+fragment after the first carries data — header-only packets are refused since c91360e), so the list
 itself, and the packet buffers it pins, are bounded by the same 2^24 + one packet. -/
 theorem c08_fragment_count_le (P : Nat) (d : Dec) (hi : Inv P d) : d.fragments.length ≤ 2 ^ 24 + P := by
   have := hi.count; have := hi.frag_lt
